@@ -10,6 +10,7 @@ import NngModel.Proofs.UrlCanon
 import NngModel.Proofs.UrlDot
 import NngModel.Proofs.UrlRound
 import NngModel.Proofs.UrlBufSafe
+import NngModel.Generated.C19
 namespace Nng.C19
 open Nng Nng.Url Nng.UrlSpec Nng.UrlProofs
 
